@@ -1,5 +1,6 @@
 ----------------------------- MODULE MC_Imports -----------------------------
 EXTENDS Imports
+MCOutSmall == {<<"pkg", "client">>, <<"app", "app">>}
 MCOutQuick == {<<"client">>, <<"pkg", "client">>, <<"app", "app">>}
 MCOutFull  == {<<"client">>, <<"pkg", "client">>, <<"a", "b", "client">>, <<"app", "app">>, <<"core", "api">>}
 =============================================================================
